@@ -299,6 +299,9 @@ func monitorC04(tr *Trace) (key, msg string) {
 		if terminalAt >= 0 {
 			// no timer left armed once the step in which the outcome was reached is over
 			step := tr.Log[terminalAt].Step
+			if step == -1 && tr.StartAfter[s].TimerRunning {
+				return "C04/timer-armed-after-terminal", fmt.Sprintf("%s has a handshake timer armed after terminal state %d reached while starting", sideName[s], tr.Log[terminalAt].State)
+			}
 			if step >= 0 && step < len(tr.Steps) && tr.Steps[step].After[s].TimerRunning {
 				return "C04/timer-armed-after-terminal", fmt.Sprintf("%s has a handshake timer armed after terminal state %d (step %d, event %s)", sideName[s], tr.Log[terminalAt].State, step, tr.Steps[step].Ev.K)
 			}
@@ -338,6 +341,14 @@ func monitorC08(tr *Trace) (key, msg string) {
 	}
 	if tr.Wedge != "" {
 		return "C08/wedge", "a library goroutine is blocked for ever on a lock: " + tr.Wedge
+	}
+	// a single delivery must not keep the receive loop busy for longer than the
+	// protocol's own waits (500 ms close wait, 1 s abort wait): more than a virtual minute is a wedge
+	for i, st := range tr.Steps {
+		if st.Executed && (st.Ev.K == EvInject || st.Ev.K == EvDeliver || st.Ev.K == EvStep) && st.Dur > int64(60e9) {
+			return "C08/receive-loop-blocked", fmt.Sprintf("event %d (%s to %s %q in state %d) blocked the receive loop for %d virtual seconds",
+				i, st.Ev.K, sideName[st.Ev.S&1], st.Ev.T, st.Before[st.Ev.S&1].State, st.Dur/1e9)
+		}
 	}
 	if tr.BubbleErr != "" {
 		return "C08/wedge", "a library goroutine is blocked for ever: " + tr.BubbleErr
